@@ -21,7 +21,9 @@ func exhaustiveSets(depth int) [][]string {
 	c5 := "c5.k1.cur.ysws.0" // a YSSHCA KeyID with white space around it
 	alphabet := []string{"list", "signers", "sign=" + c1, "sign=k1", "sign=" + c2, "sign256=" + c1, "sign512=k1", "add=" + c4 + ":63", "addhard=" + c1 + "=-", "addhard=" + c2 + "=-",
 		"addhard=" + c3 + "=796b", "remove=" + c1, "remove=k1", "removeall", "lock=7077", "unlock=7077", "unlock=6e6f", "uadd=k1:-", "uadd=" + c1 + ":63", "uadd=" + c5 + ":63", "sign=" + c5,
-		"uremove=k1", "uremoveall", "forward=c80102", "list!fail:list", "list!fail:remove", "sign=" + c1 + "!fail:sign", "addhard=" + c1 + "=-!fail:list"}
+		"uremove=k1", "uremoveall", "forward=c80102", "list!fail:list", "list!fail:remove", "sign=" + c1 + "!fail:sign", "addhard=" + c1 + "=-!fail:list",
+		// a lock / unlock / add / remove-all that the underlying agent refuses (it still answers everything else)
+		"lock=7077!fail:lock", "unlock=7077!fail:unlock", "add=" + c4 + ":63!fail:add", "removeall!fail:removeall"}
 	starts := []string{"-", "k1:-", "k1:-," + c1 + ":63", "k1:-," + c2 + ":-,k2:6b"}
 	var seqs [][]string
 	var rec func(prefix []string)
